@@ -68,13 +68,13 @@ def run(chk):
         for _ in range(chk.n(40, 800)):
             cases.append(("dparse", [gen.mutate(rng, t, EDIT)]))
     impl, model = chk.run_both(cases)
-    chk.compare("single-edit-corruptions", cases, impl, model)
+    chk.compare("single-edit-corruptions", cases, impl, model, spec=False)
     # raw bytes
     cases = [("dparse", [gen.rand_bytes(rng, 24)]) for _ in range(chk.n(3000, 60000))]
     cases += [("dparse", [gen.rand_bytes(rng, 20, EDIT)]) for _ in range(chk.n(6000, 120000))]
     cases += [("dparse", [w]) for w in gen.words([b"a", b" ", b"(", b")", b"[", b"]", b"<", b">", b"!", b"|", b",", b"$", b"{", b"}", b"=", b":"], 3)]
     impl, model = chk.run_both(cases)
-    chk.compare("raw-bytes-and-exhaustive-short", cases, impl, model)
+    chk.compare("raw-bytes-and-exhaustive-short", cases, impl, model, spec=False)
     chk.assumptions += ["legal spacing = any run of space, tab, CR, LF between tokens; a blank is required between a name and a following '[' or '<'",
                         "error messages are not compared"]
 
